@@ -713,6 +713,32 @@ def m_find(E, st, fid, t, args, dest_ty):
     return _finish(consume(E, st, fid, it_ptr, on_item, on_none, ('find', fid)), [ip, cell])
 
 
+@model(IT + 'find_map', 'pulls items front to back; returns the first Some(..) the closure answers, None when exhausted')
+def m_find_map(E, st, fid, t, args, dest_ty):
+    it_ptr, ip = _with_iter(E, st, fid, args[0])
+    cell = pin(st, fid, ('ref', True, E.closure_cell(st, args[1])))
+
+    def on_item(s, item):
+        out = []
+        for kind, s2, r in E.call_at(s, E.load(s, cell)[2], [item], fid):
+            if kind == 'unwind':
+                out.append(('done', 'unwind', s2, None))
+                continue
+            for s3, c in opt_cases(E, s2, r, fid):
+                if c is None:
+                    out.append(('cont', s3))
+                else:
+                    s3.log('found', E.tag_of(item))
+                    out.append(('done', 'ret', s3, some(c[1])))
+        return out
+
+    def on_none(s):
+        s.log('exhausted', 'find_map')
+        return [('ret', s, NONE)]
+
+    return _finish(consume(E, st, fid, it_ptr, on_item, on_none, ('find_map', fid)), [ip, cell])
+
+
 @model([IT + 'position', "<core::slice::iter::Iter<'a, T> as core::iter::traits::iterator::Iterator>::position"],
        'index of the first item for which the predicate answers true')
 def m_position(E, st, fid, t, args, dest_ty):
@@ -1290,6 +1316,225 @@ def m_option_map(E, st, fid, t, args, dest_ty):
             cell = E.closure_cell(s, args[1])
             for kind, s2, r in E.call_at(s, cell, [c[1]], fid):
                 out.append((kind, s2, some(r) if kind == 'ret' else None))
+    return out
+
+
+def _call1(E, s, fid, f, args):
+    cell = E.closure_cell(s, f)
+    return E.call_at(s, cell, args, fid)
+
+
+@model(['core::option::Option::<T>::is_some_and', 'core::option::Option::<T>::is_none_or'],
+       'is_some_and: None -> false, Some(x) -> f(x);  is_none_or: None -> true, Some(x) -> f(x)')
+def m_is_some_and(E, st, fid, t, args, dest_ty):
+    dflt = TRUE if t['callee']['name'] == 'is_none_or' else FALSE
+    out = []
+    for s, c in opt_cases(E, st, args[0], fid):
+        if c is None:
+            out.append(('ret', s, dflt))
+        else:
+            out.extend(_call1(E, s, fid, args[1], [c[1]]))
+    return out
+
+
+@model(['core::option::Option::<T>::map_or'], 'None -> default; Some(x) -> f(x)')
+def m_map_or(E, st, fid, t, args, dest_ty):
+    out = []
+    for s, c in opt_cases(E, st, args[0], fid):
+        if c is None:
+            out.append(('ret', s, args[1]))
+        else:
+            out.extend(_call1(E, s, fid, args[2], [c[1]]))
+    return out
+
+
+@model(['core::option::Option::<T>::map_or_else'], 'None -> default(); Some(x) -> f(x)')
+def m_map_or_else(E, st, fid, t, args, dest_ty):
+    out = []
+    for s, c in opt_cases(E, st, args[0], fid):
+        if c is None:
+            out.extend(_call1(E, s, fid, args[1], []))
+        else:
+            out.extend(_call1(E, s, fid, args[2], [c[1]]))
+    return out
+
+
+@model(['core::option::Option::<T>::and_then'], 'None -> None; Some(x) -> f(x)')
+def m_and_then(E, st, fid, t, args, dest_ty):
+    out = []
+    for s, c in opt_cases(E, st, args[0], fid):
+        if c is None:
+            out.append(('ret', s, NONE))
+        else:
+            out.extend(_call1(E, s, fid, args[1], [c[1]]))
+    return out
+
+
+@model(['core::option::Option::<T>::unwrap_or'], 'None -> default; Some(x) -> x')
+def m_unwrap_or(E, st, fid, t, args, dest_ty):
+    return [('ret', s, args[1] if c is None else c[1]) for s, c in opt_cases(E, st, args[0], fid)]
+
+
+@model(['core::option::Option::<T>::unwrap_or_else'], 'None -> f(); Some(x) -> x')
+def m_unwrap_or_else(E, st, fid, t, args, dest_ty):
+    out = []
+    for s, c in opt_cases(E, st, args[0], fid):
+        if c is None:
+            out.extend(_call1(E, s, fid, args[1], []))
+        else:
+            out.append(('ret', s, c[1]))
+    return out
+
+
+@model(['core::option::Option::<T>::or_else'], 'None -> f(); Some(x) -> Some(x)')
+def m_or_else(E, st, fid, t, args, dest_ty):
+    out = []
+    for s, c in opt_cases(E, st, args[0], fid):
+        if c is None:
+            out.extend(_call1(E, s, fid, args[1], []))
+        else:
+            out.append(('ret', s, some(c[1])))
+    return out
+
+
+@model(['core::option::Option::<T>::filter'], 'Some(x) if p(&x) else None')
+def m_opt_filter(E, st, fid, t, args, dest_ty):
+    out = []
+    for s, c in opt_cases(E, st, args[0], fid):
+        if c is None:
+            out.append(('ret', s, NONE))
+            continue
+        ip = pin(s, fid, c[1])
+        for kind, s2, r in _call1(E, s, fid, args[1], [('ref', False, ip)]):
+            if kind == 'unwind':
+                out.append((kind, s2, None))
+                continue
+            x = E.load(s2, ip)
+            unpin(s2, ip)
+            yes, no = E.split_bool(s2, r, True)
+            if yes is not None:
+                out.append(('ret', yes, some(x)))
+            if no is not None:
+                out.append(('ret', no, NONE))
+    return out
+
+
+@model(['core::option::Option::<T>::zip'], 'Some((a, b)) iff both are Some')
+def m_opt_zip(E, st, fid, t, args, dest_ty):
+    out = []
+    for s, ca in opt_cases(E, st, args[0], fid):
+        for s2, cb in opt_cases(E, s, args[1], fid):
+            out.append(('ret', s2, NONE if (ca is None or cb is None) else some(('tuple', (ca[1], cb[1])))))
+    return out
+
+
+@model(['core::option::Option::<T>::ok_or'], 'Some(x) -> Ok(x); None -> Err(e)')
+def m_ok_or(E, st, fid, t, args, dest_ty):
+    return [('ret', s, ('adt', RESULT, 1, (args[1],)) if c is None else ('adt', RESULT, 0, (c[1],)))
+            for s, c in opt_cases(E, st, args[0], fid)]
+
+
+@model(['core::option::Option::<T>::as_ref', 'core::option::Option::<T>::as_mut'], 'Option<&T> / Option<&mut T> view')
+def m_opt_as_ref(E, st, fid, t, args, dest_ty):
+    r = args[0]
+    if r[0] != 'ref' or r[2][0] not in ('L', 'O'):
+        return E.opaque_call(st, fid, t, args, dest_ty)
+    v = E.load(st, r[2])
+    out = []
+    for s, c in opt_cases(E, st, v, fid):
+        if c is None:
+            out.append(('ret', s, NONE))
+        else:
+            E.store(s, r[2], some(c[1]))
+            out.append(('ret', s, some(('ref', t['callee']['name'] == 'as_mut', E.extend(s, r[2], 0)))))
+    return out
+
+
+@model(['core::option::Option::<T>::take'], 'leaves None, returns the previous value')
+def m_opt_take(E, st, fid, t, args, dest_ty):
+    r = args[0]
+    if r[0] != 'ref':
+        return E.opaque_call(st, fid, t, args, dest_ty)
+    old = E.load(st, r[2])
+    out = []
+    for s in E.store(st, r[2], NONE):
+        out.append(('ret', s, old))
+    return out
+
+
+@model(['core::bool::<impl bool>::then_some'], 'true -> Some(v); false -> None')
+def m_then_some(E, st, fid, t, args, dest_ty):
+    yes, no = E.split_bool(st, args[0], True)
+    out = []
+    if yes is not None:
+        out.append(('ret', yes, some(args[1])))
+    if no is not None:
+        for kind, s2 in E.drop_value(no, args[1], t['effects']):
+            out.append((kind, s2, NONE if kind == 'ret' else None))
+    return out
+
+
+@model(['core::bool::<impl bool>::then'], 'true -> Some(f()); false -> None')
+def m_then(E, st, fid, t, args, dest_ty):
+    yes, no = E.split_bool(st, args[0], True)
+    out = []
+    if yes is not None:
+        for kind, s2, r in _call1(E, yes, fid, args[1], []):
+            out.append((kind, s2, some(r) if kind == 'ret' else None))
+    if no is not None:
+        out.append(('ret', no, NONE))
+    return out
+
+
+# tracked opaque slices (the caller's arrays of user data): peeling elements off keeps the positions
+def _tracked_oslice(E, st, r):
+    if r[0] != 'ref':
+        return None
+    v = E.peek(st, r[2])
+    if v[0] == 'oarr':
+        return v[1], 0, v[2], v[2]
+    if v[0] == 'oslice' and len(v) == 5:
+        return v[1], v[3], v[4], v[2]
+    return None
+
+
+@model(['core::slice::<impl [T]>::split_first', 'core::slice::<impl [T]>::split_last',
+        'core::slice::<impl [T]>::first', 'core::slice::<impl [T]>::last'],
+       'None when empty; otherwise the first/last element (and the rest of the slice)')
+def m_split_first(E, st, fid, t, args, dest_ty):
+    nm = t['callee']['name']
+    tr = _tracked_oslice(E, st, args[0])
+    if tr is None:
+        if _slice_of(E, st, args[0]) is not None:
+            E.check_exposed(st, args, nm)
+        return E.opaque_call(st, fid, t, args, dest_ty)
+    tg, lo, hi, ln = tr
+    out = []
+    a = st.fork()
+    a.zone.add_lt(lo, hi)
+    if a.zone.sat:
+        first = nm in ('split_first', 'first')
+        if first:
+            eidx, nlo, nhi = lo, slots.plus(a, lo, 1), hi
+        else:
+            nhi = fresh('p')
+            a.zone.add_eq(hi, nhi, 1)
+            eidx, nlo = nhi, lo
+        elem = ('ref', False, ('opq', ('elem', tg, eidx)))
+        if nm.startswith('split'):
+            oid = a.new_id('o')
+            nln = fresh('u')
+            a.zone.touch(nln)
+            a.zone.add_le(nln, ln)
+            if isinstance(nlo, int) and nlo == 0:
+                a.zone.add_eq(nln, nhi)
+            a.objs[oid] = ('oslice', tg, nln, nlo, nhi)
+            out.append(('ret', a, some(('tuple', (elem, ('ref', False, ('O', oid, ())))))))
+        else:
+            out.append(('ret', a, some(elem)))
+    st.zone.add_le(hi, lo)
+    if st.zone.sat:
+        out.append(('ret', st, NONE))
     return out
 
 
